@@ -172,7 +172,7 @@ def _sys_check_cases():
 
 # --------------------------------------------------------------------------- PRISM.__init__
 
-@contract('pyPRISM/core/PRISM.py::PRISM.__init__', props=['C16', 'C01', 'C10', 'C12'])
+@contract('pyPRISM/core/PRISM.py::PRISM.__init__', props=['C16', 'C01', 'C02', 'C03', 'C04', 'C10', 'C12'])
 def PRISM_init(self, sys):
     self.sys = copy.deepcopy(sys)            # private snapshot: nothing below writes to the caller's System
     S = self.sys
@@ -252,3 +252,169 @@ def _prism_init_cases():
             def build(f, n=n, mix=mix):
                 return dict(self=f.obj(PR), sys=mk_System(f, n, mix=mix))
             yield 'rank=%d,mix=%d (%s)' % (n, mi, '/'.join(mix[0]) + ';' + '/'.join(mix[1]) + ';' + '/'.join(mix[2])), build, {'post': _wiring_post}
+
+
+# --------------------------------------------------------------------------- PRISM.cost  (C01, C03)
+
+@contract('pyPRISM/core/PRISM.py::PRISM.cost', props=['C01', 'C03', 'C06', 'C12'])
+def PRISM_cost(self, x):
+    """One evaluation of the self-consistency map, written from the PRISM equation and the closure definitions:
+       G = x/r (trial gamma);  c_ab = closure_ab(r, G_ab) for every pair;  C = to_fourier(c);
+       rho_pair o H = (I - Omega C)^-1 (Omega C) Omega  at every wavenumber;  y = r (to_real(H - C) - G).
+    Everything the function leaves on the object is a function of (x, sys, omega) only -- none of the stored arrays is
+    read before it is overwritten -- so the state after any sequence of evaluations ending at x is that of cost(x)."""
+    S = self.sys
+    n = S.rank
+    r = S.domain.r
+    N = S.domain._length
+    self.x = x
+    G = pointwise((x.shape[0] // (n * n), n, n), lambda l, a, b: x[(l * n + a) * n + b] / r[l])
+    self.GammaIn.data = G
+    self.directCorr.space = Space.Real
+    c = [[None for j in range(n)] for i in range(n)]
+    for i in range(n):
+        for j in range(i, n):
+            cl = S.closure.values[S.types[i]][S.types[j]]
+            if isinstance(cl, AtomicClosure):
+                c[i][j] = cl.calculate(r, self.GammaIn.data[:, i, j])
+            elif isinstance(cl, MolecularClosure):
+                raise NotImplementedError
+            else:
+                raise ValueError
+            old = fresh_copy(self.directCorr.data)
+            update(self.directCorr.data, lambda l, a, b: c[i][j][l] if ((a == i and b == j) or (a == j and b == i)) else old[l, a, b])
+    S.domain.MatrixArray_to_fourier(self.directCorr)
+    W = self.omega
+    C = self.directCorr
+    self.OC = W.dot(C)                                   # Omega C, per wavenumber
+    one = self.I
+    self.IOC = MatrixArray(length=one.length, rank=one.rank, space=one.space, types=one.types,
+                           data=pointwise(one.data.shape, lambda l, a, b: one.data[l, a, b] - self.OC.data[l, a, b]))
+    self.IOC.data = matinv(self.IOC.data)                # (I - Omega C)^-1
+    self.totalCorr = self.IOC.dot(self.OC).dot(W)        # rho_pair o H
+    pair = S.density.pair.data
+    Hs = fresh_copy(self.totalCorr.data)
+    update(self.totalCorr.data, lambda l, a, b: Hs[l, a, b] / pair[0, a, b])
+    H = self.totalCorr
+    self.GammaOut = MatrixArray(length=H.length, rank=H.rank, space=H.space, types=H.types,
+                                data=pointwise(H.data.shape, lambda l, a, b: H.data[l, a, b] - C.data[l, a, b]))
+    S.domain.MatrixArray_to_real(self.GammaOut)
+    go = self.GammaOut.data
+    self.y = pointwise(go.shape, lambda l, a, b: r[l] * (go[l, a, b] - G[l, a, b]))
+    return self.y.reshape((-1,))
+
+
+def mk_real_PRISM(f, n, mix):
+    S = mk_System(f, n, mix=mix)
+    return f.construct(PR, S)
+
+
+COST_MIXES = {1: [(['PY'], ['HS'], ['SS']), (['HNC'], ['LJ'], ['G'])],
+              2: [(['PYhc', 'HNC', 'MSA'], ['HS', 'LJ', 'EXP'], ['G', 'NI', 'SS'])],
+              3: [(['PY', 'HNC', 'MSA', 'PYhc', 'PY', 'HNC'], ['HS', 'LJ', 'EXP', 'HSs', 'HS', 'LJ'], ['SS', 'NI', 'NI', 'G', 'NI', 'SS'])]}
+
+
+@cases(PRISM_cost)
+def _cost_cases():
+    for n in (1, 2, 3):
+        for mi, mix in enumerate(COST_MIXES[n]):
+            def build(f, n=n, mix=mix):
+                P = mk_real_PRISM(f, n, mix)
+                N = f.getattr(f.getattr(f.getattr(P, 'sys'), 'domain'), '_length')
+                return dict(self=P, x=f.array('x', (n * n * N,)))
+            yield 'rank=%d,mix=%d, first evaluation' % (n, mi), build
+    def build2(f):
+        # a later evaluation: the object carries whatever an earlier evaluation at another trial vector left behind
+        P = mk_real_PRISM(f, 2, COST_MIXES[2][0])
+        N = f.getattr(f.getattr(f.getattr(P, 'sys'), 'domain'), '_length')
+        f.call(P, 'cost', f.array('x_earlier', (4 * N,)))
+        return dict(self=P, x=f.array('x', (4 * N,)))
+    yield 'rank=2, after an earlier evaluation at another trial vector', build2
+
+
+# --------------------------------------------------------------------------- PRISM.solve, System.createPRISM / solve
+
+from scipy.optimize import root      # native meaning for the replay; symbolically the assumed contract in pyvc/models.py
+
+
+@contract('pyPRISM/core/PRISM.py::PRISM.solve', props=['C01', 'C06', 'C16'])
+def PRISM_solve(self, guess=None, method='krylov', options=None):
+    """The object is left exactly as the last evaluation of cost -- at the returned root, by the assumed contract of
+    scipy.optimize.root -- left it, except that totalCorr is transformed (once) to real space; the result record
+    is stored and returned; nothing is post-processed, clipped or rescaled."""
+    S = self.sys
+    if guess is None:
+        guess = pointwise(S.rank * S.rank * S.domain.length, lambda m: 0.0)
+    if options is None:
+        options = {'disp': True}
+    self.minimize_result = root(self.cost, guess, method=method, options=options)
+    if self.totalCorr.space == Space.Fourier:
+        S.domain.MatrixArray_to_real(self.totalCorr)
+    return self.minimize_result
+
+
+def _solved_post(f, args, res):
+    P = args['self']
+    return [('totalCorr is in real space after solve', f.getattr(f.getattr(P, 'totalCorr'), 'space') == f.enum(SP, 'Real')),
+            ('directCorr is left in Fourier space, as cost leaves it', f.getattr(f.getattr(P, 'directCorr'), 'space') == f.enum(SP, 'Fourier'))]
+
+
+@cases(PRISM_solve)
+def _solve_cases():
+    for n, mix in ((1, COST_MIXES[1][0]), (2, COST_MIXES[2][0])):
+        for g in ('none', 'given'):
+            def build(f, n=n, mix=mix, g=g):
+                P = mk_real_PRISM(f, n, mix)
+                N = f.getattr(f.getattr(f.getattr(P, 'sys'), 'domain'), '_length')
+                f.assume(N <= 6) if not f.symbolic else None          # replay: keep the real solver cheap
+                return dict(self=P, guess=(f.array('guess', (n * n * N,)) if g == 'given' else None), method='krylov',
+                            options={'disp': False, 'maxiter': 5})
+            yield 'rank=%d,guess=%s' % (n, g), build, {'post': _solved_post}
+    def build_re(f):
+        # re-solve from the object's own solution (C06): the object was solved before
+        P = mk_real_PRISM(f, 1, COST_MIXES[1][1])
+        N = f.getattr(f.getattr(f.getattr(P, 'sys'), 'domain'), '_length')
+        f.assume(N <= 6) if not f.symbolic else None
+        f.call(P, 'solve', None, 'krylov', {'disp': False, 'maxiter': 3})
+        return dict(self=P, guess=f.getattr(P, 'x'), method='krylov', options={'disp': False, 'maxiter': 3})
+    yield 'rank=1, re-solve from the object\'s own x', build_re, {'post': _solved_post}
+
+
+@contract('pyPRISM/core/System.py::System.createPRISM', props=['C16'])
+def System_createPRISM(self):
+    from pyPRISM.core.PRISM import PRISM
+    self.check()                    # its ValueError escapes: no PRISM object is built from a partial system
+    return PRISM(self)
+
+
+@cases(System_createPRISM)
+def _create_cases():
+    def build_partial(f):
+        return dict(self=mk_System(f, 2, complete=False))
+    yield 'types=2, any subset of the specifications missing', build_partial
+    for n in (1, 2):
+        def build(f, n=n):
+            return dict(self=mk_System(f, n, mix=MIXES[n][0]))
+        yield 'types=%d, fully specified' % n, build
+
+
+@contract('pyPRISM/core/System.py::System.solve', props=['C16'])
+def System_solve(self, *args, **kwargs):
+    from pyPRISM.core.PRISM import PRISM
+    self.check()                    # before anything else: no root() call on a partial system
+    p = PRISM(self)
+    p.solve(*args, **kwargs)
+    return p
+
+
+@cases(System_solve)
+def _sys_solve_cases():
+    def build_partial(f):
+        return dict(self=mk_System(f, 2, complete=False))
+    yield 'types=2, any subset of the specifications missing', build_partial
+    def build(f):
+        S = mk_System(f, 1, mix=MIXES[1][0])
+        N = f.getattr(f.getattr(S, 'domain'), '_length')
+        f.assume(N <= 6) if not f.symbolic else None
+        return dict(self=S, kwargs={'method': 'krylov', 'options': {'disp': False, 'maxiter': 3}})
+    yield 'types=1, fully specified', build
